@@ -284,12 +284,14 @@ def cfgs(kinds):
 
 
 @st.composite
-def run_case(draw):
+def run_case(draw, big=False):
     cfg = draw(cfgs(KINDS))
+    if big:
+        cfg["n"] = draw(st.integers(1, 9))
     if cfg["yor"] and draw(st.booleans()):
         # buffers are not used with yield_on_remainder: none is needed
         cfg["mode"] = draw(st.sampled_from(["none", "both"]))
-    m = draw(st.integers(0, 17))
+    m = draw(st.integers(0, 60 if big else 17))
     flow = draw(st.lists(st.integers(0, 9), min_size=m, max_size=m))
     return {"cfg": cfg, "flow": flow, "via": draw(st.sampled_from(["direct", "sequence", "twice"]))}
 
@@ -338,9 +340,11 @@ def judge_run(case):
 
 
 @st.composite
-def history_case(draw):
+def history_case(draw, big=False):
     cfg = draw(cfgs(FILL_KINDS))
-    nops = draw(st.integers(0, 30))
+    if big:
+        cfg["n"] = draw(st.integers(1, 9))
+    nops = draw(st.integers(0, 90 if big else 30))
     # request probability varies per case so that long runs of fills occur
     preq = draw(st.sampled_from([1, 2, 3, 5]))
     ops = []
@@ -689,10 +693,10 @@ def judge_ctor(case):
 
 
 CHECKS = [
-    Check("run", judge_run, strategy=lambda tier: run_case(), quick=2500, thorough=100000,
+    Check("run", judge_run, strategy=lambda tier: run_case() if tier != "thorough" else st.one_of(run_case(), run_case(big=True)), quick=2500, thorough=100000,
           rule="16 wrapped element kinds x bufsize 1-5 x buffer mode x reset x yield_on_remainder x flows 0-17, run directly / inside a Sequence / twice; "
                "oracle: results of a fresh element block by block. Non-trivial = >= 2 blocks and a partial last block, or an early-stopping / stateful / sparse element."),
-    Check("history", judge_history, strategy=lambda tier: history_case(), quick=3000, thorough=120000,
+    Check("history", judge_history, strategy=lambda tier: history_case() if tier != "thorough" else st.one_of(history_case(), history_case(big=True)), quick=3000, thorough=120000,
           rule="fill-capable kinds x configuration x generated schedules of fill(v) | request (0-30 ops, final request, lazily or eagerly consumed), each call under a step budget; "
                "oracle: lock-step reference model per request, concatenation == block-wise run reference, completion probe of the remainder, buffer sizes. "
                "Non-trivial = a request at a non-multiple of bufsize or more than bufsize fills between two requests, with more than one block filled."),
